@@ -750,10 +750,13 @@ fn collect_entries_from_map<'a>(
         });
     };
 
-    let mut fields: Vec<PendingEntry<'a>> = Vec::new();
+    // Own entries in document order; an entry overridden under `LastWins` leaves `None` behind.
+    let mut fields: Vec<Option<PendingEntry<'a>>> = Vec::new();
     let mut merges = Vec::new();
-    // The merged mapping's own entries obey the duplicate-key policy like those of any mapping.
-    let mut seen: FastHashSet<KeyFingerprint> = FastHashSet::default();
+    // The merged mapping's own entries obey the duplicate-key policy like those of any mapping:
+    // fingerprint -> index of the entry that currently holds the key.
+    let mut seen: std::collections::HashMap<KeyFingerprint, usize, RandomState> =
+        std::collections::HashMap::default();
 
     loop {
         match ev.peek()? {
@@ -777,25 +780,31 @@ fn collect_entries_from_map<'a>(
                 } else {
                     let value = capture_node(ev)?;
                     let fingerprint = key.fingerprint().into_owned();
-                    if !seen.insert(fingerprint.clone()) {
-                        match dup_policy {
-                            DuplicateKeyPolicy::Error => {
-                                return Err(Error::DuplicateMappingKey {
-                                    key: fingerprint.stringy_scalar_value().map(|s| s.to_owned()),
-                                    location: key.location(),
-                                });
-                            }
-                            DuplicateKeyPolicy::FirstWins => continue,
-                            DuplicateKeyPolicy::LastWins => {
-                                fields.retain(|e| *e.key.fingerprint() != fingerprint);
-                            }
-                        }
-                    }
-                    fields.push(PendingEntry {
+                    let location = key.location();
+                    let entry = Some(PendingEntry {
                         key,
                         value,
                         reference_location,
                     });
+                    match seen.entry(fingerprint) {
+                        std::collections::hash_map::Entry::Vacant(slot) => {
+                            slot.insert(fields.len());
+                        }
+                        std::collections::hash_map::Entry::Occupied(mut slot) => match dup_policy {
+                            DuplicateKeyPolicy::Error => {
+                                return Err(Error::DuplicateMappingKey {
+                                    key: slot.key().stringy_scalar_value().map(|s| s.to_owned()),
+                                    location,
+                                });
+                            }
+                            DuplicateKeyPolicy::FirstWins => continue,
+                            DuplicateKeyPolicy::LastWins => {
+                                fields[*slot.get()] = None;
+                                slot.insert(fields.len());
+                            }
+                        },
+                    }
+                    fields.push(entry);
                 }
             }
             None => {
@@ -804,7 +813,7 @@ fn collect_entries_from_map<'a>(
         }
     }
 
-    let mut entries = fields;
+    let mut entries: Vec<PendingEntry<'a>> = fields.into_iter().flatten().collect();
     while let Some(mut nested) = merges.pop() {
         entries.append(&mut nested);
     }
